@@ -353,7 +353,12 @@ application_call:
 		// only a message that carried the expected number moves the expectation on: one above it is awaited again (a resend
 		// has been requested), a possible duplicate below it has been counted before; a sequence reset has set its own value
 		if (seqnum == _next_receive_seq || msg->get_msgtype() == Common_MsgType_SEQUENCE_RESET)
+		{
 			++_next_receive_seq;
+			// an outstanding resend request is satisfied once every number seen so far has arrived
+			if (_state == States::st_resend_request_sent && _next_receive_seq > _resend_highest)
+				do_state_change(States::st_continuous);
+		}
 		if (retry_plog)
 			plog(from, Logger::Info, 1);
 
@@ -443,11 +448,16 @@ bool Session::sequence_check(const unsigned seqnum, const Message *msg)
 	{
 		if (_state == States::st_resend_request_sent)
 		{
+			// everything from the expected number on has been requested: this message will arrive again in the replay
 			slout_warn << "Resend request already sent";
+			if (seqnum > _resend_highest)
+				_resend_highest = seqnum;
+			return false;
 		}
 		if (_state == States::st_continuous)
 		{
 			send(generate_resend_request(_next_receive_seq));
+			_resend_highest = seqnum;
 			do_state_change(States::st_resend_request_sent);
 		}
 		// If SessionConfig has *not* been set, assume wrong logon sequence is checked.
